@@ -9,7 +9,7 @@ The explorer never samples: every feasible decision prefix is run to completion.
 """
 import os, sys, time, collections, traceback, multiprocessing as mp
 import z3
-from .values import Panic, Unsupported
+from .values import Panic, Unsupported, Pruned
 
 _SPEC = None
 SHARD_BUDGET_S = 0.5
@@ -63,6 +63,8 @@ def run_one(spec, it, dec, res, max_viol=50):
             rec = spec.on_panic(it, e)
         else:
             rec = {'cls': 'panic:' + e.kind, 'ok': False, 'panic': str(e), 'stack': list(e.stack[-6:])}
+    except Pruned as e:
+        rec = {'cls': 'pruned', 'ok': True}
     except Unsupported as e:
         res.unsupported[str(e)[:200]] += 1
         rec = None
